@@ -15,7 +15,9 @@ import (
 // refuses the upgrade and nothing changes.
 // param 0: layout era (0: < 0.16, 1: [0.16, 0.17), 2: [0.17, 0.19)); param 1: notary flag (0 absent,
 // 1 false, 2 true with no ballots, 3 true with a stale ballot, 4 true with a pending ballot, 5 true with a
-// ballot whose last vote is a SYMBOLIC 15..25 blocks before the block of the update: pending iff <= 20).
+// ballot whose last vote is a SYMBOLIC 15..25 blocks before the block of the update: pending iff <= 20,
+// 6 true with TWO ballots, a pending one listed before a stale one, 7 the same in the other order: the list
+// is not ordered by height (a re-voted ballot keeps its place), any pending ballot refuses the upgrade).
 func VerifC16MigrateNetmap() {
 	era, notary := vParam(0), vParam(1)
 	v := vInt("deployedVersion")
@@ -75,6 +77,14 @@ func VerifC16MigrateNetmap() {
 		case 4: // last vote "now" for every reachable height
 			vPreset("netmap", []byte("notary"), true)
 			vPreset("netmap", []byte("ballots"), vSerialize([]common.Ballot{{ID: []byte("id"), Voters: nil, Height: 1 << 30}}))
+			pending = true
+		case 6:
+			vPreset("netmap", []byte("notary"), true)
+			vPreset("netmap", []byte("ballots"), vSerialize([]common.Ballot{{ID: []byte("idA"), Voters: nil, Height: 1 << 30}, {ID: []byte("idB"), Voters: nil, Height: -100000}}))
+			pending = true
+		case 7:
+			vPreset("netmap", []byte("notary"), true)
+			vPreset("netmap", []byte("ballots"), vSerialize([]common.Ballot{{ID: []byte("idB"), Voters: nil, Height: -100000}, {ID: []byte("idA"), Voters: nil, Height: 1 << 30}}))
 			pending = true
 		case 5: // the ballots item is the last preset: it lands one block above vHeight(), the update two above,
 			// where ledger.CurrentIndex() (the latest stored block) is vHeight()+1
